@@ -5,6 +5,8 @@ one reply line each.  Imports the Mathlib-free model/spec only, so it links as a
 import PoetryVerif.Protocol
 import PoetryVerif.Model.Version
 import PoetryVerif.Spec.Pep440
+import PoetryVerif.Model.VPrint
+import PoetryVerif.Model.VParser
 
 open Poetry Poetry.Proto
 
@@ -34,6 +36,57 @@ def handleVersion (op : String) (args : List String) : Option String :=
     | .error e => errStr e
   | _, _ => none
 
+def pyStr {α : Type} (f : α → String) : PyM α → String
+  | .ok a => f a
+  | .error e => "!" ++ e.name
+
+def pyBool : PyM Bool → String
+  | .ok true => "1"
+  | .ok false => "0"
+  | .error e => "!" ++ e.name
+
+def vcText (c : VC) : String := pyStr id c.toStr
+
+def probeBits (c : VC) (probes : List String) : String :=
+  String.join (probes.map fun p =>
+    match Version.parse p with
+    | .ok v => (match c.allows v with | .ok true => "1" | .ok false => "0" | .error _ => "E")
+    | .error _ => "?")
+
+def vcReport (c : VC) (probes : List String) : String :=
+  encode (vcText c) ++ "\t" ++ encode c.dump ++ "\t" ++ boolStr c.isAny ++ boolStr c.isEmpty ++
+    "\t" ++ pyBool c.isSimple ++ "\t" ++ encode (probeBits c probes)
+
+def handleConstraint (op : String) (args : List String) : Option String :=
+  match op, args with
+  | "cparse", s :: probes =>
+    some <| match VParser.parseConstraint s with
+    | .ok c => "ok\t" ++ vcReport c probes
+    | .error e => errStr e
+  | "cmparse", s :: probes =>
+    some <| match VParser.parseMarkerVersionConstraint s with
+    | .ok c => "ok\t" ++ vcReport c probes
+    | .error e => errStr e
+  | "cop", o :: a :: b :: probes =>
+    some <| match VParser.parseConstraint a, VParser.parseConstraint b with
+    | .ok x, .ok y =>
+      let r : PyM VC := match o with
+        | "intersect" => x.intersect y
+        | "union" => x.unionWith y
+        | "difference" => x.difference y
+        | _ => .error .runtime
+      (match r with
+       | .ok c => "ok\t" ++ vcReport c probes
+       | .error e => errStr e)
+    | .error e, _ => "perr\t" ++ e.name
+    | _, .error e => "perr\t" ++ e.name
+  | "cpred", [a, b] =>
+    some <| match VParser.parseConstraint a, VParser.parseConstraint b with
+    | .ok x, .ok y => "ok\t" ++ pyBool (x.allowsAll y) ++ "\t" ++ pyBool (x.allowsAny y)
+    | .error e, _ => "perr\t" ++ e.name
+    | _, .error e => "perr\t" ++ e.name
+  | _, _ => none
+
 def handle (line : String) : String :=
   let fields := line.splitOn "\t"
   match fields with
@@ -43,6 +96,9 @@ def handle (line : String) : String :=
     | none => "bad-arg"
     | some args =>
       match handleVersion op args with
+      | some r => r
+      | none =>
+      match handleConstraint op args with
       | some r => r
       | none => "bad-op"
 
